@@ -1,5 +1,6 @@
 import Xp.Base.JsonIO
 import Xp.Model.C02Crd
+import Xp.Model.C02CrdEnv
 /-
 Driver of the C02 site "crd" (harness/main/c02_crd.go): parses one scenario, runs the model of
 the definition / offered reconciler round by round under the scenario's fault plans and prints
@@ -100,26 +101,50 @@ def handler : Handler := fun scn => do
              est := bool c "est", fin := bool c "fin", del := bool c "del" && bool c "fin", rv := 2 }
     else none
   let s0 : St := { xrd := some xrd, crd := crd, next := 2 }
-  let foreign := match crd with | some k => k.ctrl == Ctrl.other | none => false
   let mut s := s0
   let mut rounds : Array Json := #[]
   let mut bad := ""
   for rd in arr scn "rounds" do
     let plan := planOfRound rd
     let prog := reconcile w
-    let log := callLog sem plan 0 prog s
-    let (s', r) := run sem plan 0 prog s
-    -- model-side monitors
-    if foreign then
-      if (reach sem plan 0 prog s).any (fun t => t.crd != crd) then bad := "C02:crd-foreign-touched-in-model"
-      let liveXrd := match s.xrd with | some d => !d.del && !(w == Which.offered && !d.claim) | none => false
-      if liveXrd && r == some Res.ok then bad := "C02:crd-conflict-not-surfaced-in-model"
-    rounds := rounds.push (Json.mkObj [
-      ("calls", Json.arr (log.map fun e => Json.str (callStr w e)).toArray),
-      ("res", .str (resStr r)),
-      ("xrd", xrdJson s'.xrd),
-      ("crd", crdJson s.crd s'.crd)])
-    s := s'
+    -- the CRD as this reconcile finds it
+    let crd0 := s.crd
+    let foreign := match crd0 with | some k => k.ctrl == Ctrl.other | none => false
+    if has rd "env" then
+      -- a concurrent writer of the CRD before call k of this reconcile (Xp.C02CrdEnv)
+      let ev := obj rd "env"
+      let a : Xp.C02CrdEnv.Act := match str ev "act" with
+        | "adopt" => .adopt | "edit" => .edit | "create" => .create | _ => .remove
+      let env := Xp.C02CrdEnv.actAt (nat ev "k") a
+      let e0 : Xp.C02CrdEnv.E := { base := s, seen := none }
+      let log := callLogE Xp.C02CrdEnv.sem env plan 0 prog e0
+      let (e', r) := runE Xp.C02CrdEnv.sem env plan 0 prog e0
+      -- model-side monitor: an own call changed a CRD foreign at that moment, outside the window
+      let own := ownE Xp.C02CrdEnv.sem env plan 0 prog e0
+      if own.any (fun x => match x.1.base.crd with
+          | some c => c.ctrl == Ctrl.other && (Xp.C02CrdEnv.exec x.1 x.2).1.base.crd != some c &&
+              !(x.2 == Req.deleteCRD && (match x.1.seen with | some (some c0) => c0.ctrl == Ctrl.xrd && c0.rv != c.rv | _ => false))
+          | none => false) then bad := "C02:crd-foreign-written-outside-window-in-model"
+      rounds := rounds.push (Json.mkObj [
+        ("calls", Json.arr (log.map fun e => Json.str (callStr w e)).toArray),
+        ("res", .str (resStr r)),
+        ("xrd", xrdJson e'.base.xrd),
+        ("crd", crdJson s.crd e'.base.crd)])
+      s := e'.base
+    else
+      let log := callLog sem plan 0 prog s
+      let (s', r) := run sem plan 0 prog s
+      -- model-side monitors
+      if foreign then
+        if (reach sem plan 0 prog s).any (fun t => t.crd != crd0) then bad := "C02:crd-foreign-touched-in-model"
+        let liveXrd := match s.xrd with | some d => !d.del && !(w == Which.offered && !d.claim) | none => false
+        if liveXrd && r == some Res.ok then bad := "C02:crd-conflict-not-surfaced-in-model"
+      rounds := rounds.push (Json.mkObj [
+        ("calls", Json.arr (log.map fun e => Json.str (callStr w e)).toArray),
+        ("res", .str (resStr r)),
+        ("xrd", xrdJson s'.xrd),
+        ("crd", crdJson s.crd s'.crd)])
+      s := s'
   return (Json.mkObj [("rounds", Json.arr rounds)], bad == "", bad)
 
 end Xp.C02Crd
